@@ -5,12 +5,17 @@
 from=${1:-1}; to=${2:-60}; tier=${3:-quick}
 root=/tmp/seedsweep.$$; mkdir -p $root/evidence $root/replays
 cp /verif/known_findings.jsonl $root/; cp /verif/sim/target/release/pksim $root/pksim
+[ -x /verif/sim/target-testable/release/pksim ] && cp /verif/sim/target-testable/release/pksim $root/pksim-testable
 ids=$(python3 -c "import json;print(' '.join(c['property_id'] for c in json.load(open('/verif/MANIFEST.json'))['checks']))")
 bad=0
 for seed in $(seq $from $to); do
   for p in $ids; do
     out=$(VERIF_ROOT=$root VERIF_SEED=$seed PKSIM_PROFILE=checked $root/pksim check $p --tier $tier 2>&1); rc=$?
     if [ $rc -ne 0 ]; then bad=$((bad+1)); echo "SEED $seed $p exit $rc"; echo "$out" | grep -E "clause|detail|HARNESS" | cut -c1-600; fi
+    if [ $p = C06 ] && [ -x $root/pksim-testable ]; then
+      out=$(VERIF_ROOT=$root VERIF_SEED=$seed PKSIM_PROFILE=checked PKSIM_EVIDENCE_SUFFIX=testable $root/pksim-testable check $p --tier $tier 2>&1); rc=$?
+      if [ $rc -ne 0 ]; then bad=$((bad+1)); echo "SEED $seed $p (testable build) exit $rc"; echo "$out" | grep -E "clause|detail|HARNESS" | cut -c1-600; fi
+    fi
   done
 done
 echo "seedsweep $from..$to tier=$tier: $bad non-zero exits; replays kept in $root/replays"
